@@ -336,6 +336,64 @@ def run(ctx, model_available=True):
                 loop.run_until_complete(cl.disconnect())
             except BaseException as e:  # noqa: BLE001
                 failures.append({"kind": "oracle", "sig": "C18:reconnect", "desc": f"reads across a reconnect of one MQTTClient raised {type(e).__name__}: {e}", "case": {}})
+        # one client over its whole life: random interleavings of connect / disconnect / broker
+        # deliveries (messages, undecodable payloads, broker errors) / reads, compared op by op
+        # with the model (Mqtt.life_run; C18_life_fifo is the theorem about every interleaving)
+        for _ in range(ctx.budget(80, 1200)):
+            dist["life_histories"] = dist.get("life_histories", 0) + 1
+            cl = mqtt_mod.MQTTClient("broker", 1883, in_prefix="gw-out", out_prefix="gw-in")
+            ops, outs = [], []
+            connected = False
+            for _ in range(rng.randint(3, 14)):
+                x = rng.random()
+                if x < 0.17:
+                    ops.append(("C",))
+                    try:
+                        loop.run_until_complete(cl.connect())
+                        connected = True
+                        outs.append("ok")
+                    except RuntimeError:
+                        outs.append("RT")
+                elif x < 0.32:
+                    ops.append(("D",))
+                    try:
+                        loop.run_until_complete(cl.disconnect())
+                        connected = False
+                        outs.append("ok")
+                    except RuntimeError:
+                        outs.append("RT")
+                elif x < 0.7:
+                    y = rng.random()
+                    if y < 0.7:
+                        op = ("M", f"gw-out/{rng.randint(1, 9)}/{rng.randint(0, 3)}/1/0/2", rng.choice([b"1", b"x;y", "\u00e5".encode(), b""]))
+                    elif y < 0.85:
+                        op = ("M", "gw-out/1/2/1/0/2", rng.choice([b"\xff\xfe", b"\xc3"]))
+                    else:
+                        op = ("E",)
+                    ops.append(op)
+                    if connected:
+                        FakeAioMqtt.instances[-1].q.put_nowait("ERROR" if op[0] == "E" else FakeMessage(op[1], op[2]))
+                        spin(loop, 5)
+                    outs.append("ok")
+                else:
+                    ops.append(("R",))
+                    task = loop.create_task(cl.read())
+                    spin(loop, 4)
+                    if not task.done():
+                        task.cancel()
+                        spin(loop, 2)
+                        outs.append("P")
+                    else:
+                        e = task.exception()
+                        outs.append("L " + task.result() if e is None else "RF" if isinstance(e, ex.TransportFailedError)
+                                    else "RE" if isinstance(e, ex.TransportError) else "ESCAPE " + type(e).__name__)
+            if connected:
+                try:
+                    loop.run_until_complete(cl.disconnect())
+                except BaseException as e:  # noqa: BLE001
+                    failures.append({"kind": "oracle", "sig": "C18:disconnect", "desc": f"disconnect at the end of a life history raised {type(e).__name__}", "case": {}})
+            d.add(f"MQH {len(ops)} " + " ".join(o[0] if o[0] != "M" else f"M {enc_str(o[1])} {enc_bytes(o[2])}" for o in ops))
+            exp.append(("h", [list(map(str, o)) for o in ops], "".join(o + "|" for o in outs)))
         # two transports side by side: what arrives for one is read from that one only
         for _ in range(ctx.budget(6, 40)):
             dist["two_client_runs"] = dist.get("two_client_runs", 0) + 1
